@@ -11,8 +11,8 @@ EXTENDS Expr, Json, IOUtils
 
 CONSTANT Dev
 Trace == ndJsonDeserialize(IOEnv.TRACE_FILE)
-VARIABLES l, cfg, rows, got, pendC, dead
-vars == <<l, cfg, rows, got, pendC, dead>>
+VARIABLES l, cfg, rows, got, pendS, pendC, dead
+vars == <<l, cfg, rows, got, pendS, pendC, dead>>
 
 HasWhere == "where" \in DOMAIN cfg
 \* WHERE: produced iff the predicate is true; a predicate whose evaluation fails rejects the row
@@ -43,11 +43,12 @@ Reject(code) == /\ PrintT(<<"REJECT", cfg.tr, l, code>>) /\ dead' = TRUE
 \* diagnostics for a rejected delivery: what the reference computes for the row
 Detail(i) == IF cfg.star = 1 THEN "star" ELSE ToString([k \in 1..Len(cfg.sel) |-> Eval(cfg.sel[k].e, rows[i])]) \o " where=" \o (IF HasWhere THEN ToString(Eval(cfg.where, rows[i])) ELSE "-")
 
-Init == l = 1 /\ cfg = [tr |-> -1] /\ rows = <<>> /\ got = FALSE /\ pendC = <<>> /\ dead = FALSE
+Init == l = 1 /\ cfg = [tr |-> -1] /\ rows = <<>> /\ got = FALSE /\ pendS = <<>> /\ pendC = <<>> /\ dead = FALSE
 
 \* Lock-step replay: a sink delivery belongs to the row handed in last (the driver waits until a row is fully
 \* processed before the next one).  got = the last row already produced its result.
 \* The channel must carry the same results as the sink, in the same order (it may lag behind).
+Burst == "burst" \in DOMAIN cfg /\ cfg.burst = 1      \* rows handed in without waiting: results must come in emission order
 SinkMissing == rows # <<>> /\ ~got /\ Passes(rows[Len(rows)]) /\ ~WhereOpen(rows[Len(rows)])
 
 Next ==
@@ -55,12 +56,25 @@ Next ==
   /\ l' = l + 1
   /\ LET e == Trace[l] IN
      IF e.e = "reset" THEN
-        /\ cfg' = e /\ rows' = <<>> /\ got' = FALSE /\ pendC' = <<>> /\ dead' = FALSE
-     ELSE IF dead THEN UNCHANGED <<cfg, rows, got, pendC, dead>>
+        /\ cfg' = e /\ rows' = <<>> /\ got' = FALSE /\ pendS' = <<>> /\ pendC' = <<>> /\ dead' = FALSE
+     ELSE IF dead THEN UNCHANGED <<cfg, rows, got, pendS, pendC, dead>>
      ELSE IF e.e = "in" THEN
-        /\ IF SinkMissing THEN Reject("sink_result_missing") ELSE UNCHANGED dead
+        /\ IF ~Burst /\ SinkMissing THEN Reject("sink_result_missing") ELSE UNCHANGED dead
         /\ rows' = Append(rows, e.row) /\ got' = FALSE
-        /\ UNCHANGED <<cfg, pendC>>
+        /\ pendS' = IF Burst /\ Passes(e.row) THEN Append(pendS, Len(rows) + 1) ELSE pendS
+        \* the channel receives the result before the sinks are called: its order w.r.t. sink events is open, so its
+        \* expectation is fixed when the row goes in (scenarios with a channel have no open WHERE outcomes)
+        /\ pendC' = IF cfg.chan = 1 /\ e.op = "emit" /\ Passes(e.row) THEN Append(pendC, Len(rows) + 1) ELSE pendC
+        /\ UNCHANGED cfg
+     ELSE IF e.e = "out" /\ Burst THEN
+        LET c == IF Len(e.rows) # 1 THEN "batch_not_single_row"
+                 ELSE IF pendS = <<>> THEN "unexpected_result"
+                 ELSE IF RowCode(e.rows[1], rows[Head(pendS)]) # "" THEN "out_of_order_or_" \o RowCode(e.rows[1], rows[Head(pendS)])
+                 ELSE "" IN
+        IF c = "" THEN
+           /\ pendS' = Tail(pendS)
+           /\ UNCHANGED <<cfg, rows, got, pendC, dead>>
+        ELSE Reject("sink_" \o c) /\ UNCHANGED <<cfg, rows, got, pendS, pendC>>
      ELSE IF e.e = "out" THEN
         LET row == rows[Len(rows)]
             c == IF rows = <<>> THEN "unexpected_result"
@@ -70,15 +84,14 @@ Next ==
                  ELSE RowCode(e.rows[1], row) IN
         IF c = "" THEN
            /\ got' = TRUE
-           /\ pendC' = IF cfg.chan = 1 THEN Append(pendC, Len(rows)) ELSE pendC
-           /\ UNCHANGED <<cfg, rows, dead>>
-        ELSE Reject("sink_" \o c) /\ PrintT(<<"DETAIL", cfg.tr, l, IF rows = <<>> THEN "-" ELSE Detail(Len(rows))>>) /\ UNCHANGED <<cfg, rows, got, pendC>>
+           /\ UNCHANGED <<cfg, rows, pendS, pendC, dead>>
+        ELSE Reject("sink_" \o c) /\ PrintT(<<"DETAIL", cfg.tr, l, IF rows = <<>> THEN "-" ELSE Detail(Len(rows))>>) /\ UNCHANGED <<cfg, rows, got, pendS, pendC>>
      ELSE IF e.e = "chan" THEN
         LET c == IF Len(e.rows) # 1 THEN "batch_not_single_row"
                  ELSE IF pendC = <<>> THEN "unexpected_result"
                  ELSE RowCode(e.rows[1], rows[Head(pendC)]) IN
-        IF c = "" THEN pendC' = Tail(pendC) /\ UNCHANGED <<cfg, rows, got, dead>>
-        ELSE Reject("channel_" \o c) /\ UNCHANGED <<cfg, rows, got, pendC>>
+        IF c = "" THEN pendC' = Tail(pendC) /\ UNCHANGED <<cfg, rows, got, pendS, dead>>
+        ELSE Reject("channel_" \o c) /\ UNCHANGED <<cfg, rows, got, pendS, pendC>>
      ELSE IF e.e = "ret" THEN
         \* EmitSync returned: the result (or nil) for the row just handed in; the sink saw it first
         LET row == rows[e.i]  p == Passes(row)  o == WhereOpen(row) IN
@@ -88,14 +101,15 @@ Next ==
            ELSE IF e.has = 1 /\ RowCode(e.row, row) # "" THEN Reject("emitsync_" \o RowCode(e.row, row))
            ELSE IF e.has = 1 /\ ~got THEN Reject("emitsync_result_not_delivered_to_sink")
            ELSE UNCHANGED dead
-        /\ UNCHANGED <<cfg, rows, got, pendC>>
+        /\ UNCHANGED <<cfg, rows, got, pendS, pendC>>
      ELSE IF e.e = "quiesce" THEN
-        /\ IF SinkMissing THEN Reject("sink_result_missing")
+        /\ IF ~Burst /\ SinkMissing THEN Reject("sink_result_missing")
+           ELSE IF Burst /\ pendS # <<>> THEN Reject("sink_result_missing")
            ELSE IF pendC # <<>> THEN Reject("channel_result_missing")
            ELSE UNCHANGED dead
-        /\ UNCHANGED <<cfg, rows, got, pendC>>
-     ELSE IF e.e \in {"execerr", "panic"} THEN Reject("engine_" \o e.e) /\ UNCHANGED <<cfg, rows, got, pendC>>
-     ELSE UNCHANGED <<cfg, rows, got, pendC, dead>>
+        /\ UNCHANGED <<cfg, rows, got, pendS, pendC>>
+     ELSE IF e.e \in {"execerr", "panic"} THEN Reject("engine_" \o e.e) /\ UNCHANGED <<cfg, rows, got, pendS, pendC>>
+     ELSE UNCHANGED <<cfg, rows, got, pendS, pendC, dead>>
 
 Spec == Init /\ [][Next]_vars
 AllConsumed == TLCGet("stats").diameter - 1 = Len(Trace)
